@@ -26,13 +26,13 @@ class Models:
         ex = self.ex
         if name in ('True', 'False', 'None'):
             return {'True': True, 'False': False, 'None': None}[name]
-        m = getattr(self, 'b_' + name, None)
-        if m is not None:
-            return Builtin(name, lambda ex_, args, kw, m=m: m(*args, **kw))
         if name in P.BUILTIN_EXC:
             return ClassVal(('ext', f'builtins.{name}'))
         if name in ('list', 'dict', 'set', 'str', 'int', 'float', 'bool', 'tuple', 'object', 'type', 'frozenset', 'bytes'):
             return ClassVal(('ext', f'builtins.{name}'))
+        m = getattr(self, 'b_' + name, None)
+        if m is not None:
+            return Builtin(name, lambda ex_, args, kw, m=m: m(*args, **kw))
         raise OutOfSubset(f'unknown name {name}', node)
 
     def ext_value(self, dotted):
@@ -696,6 +696,43 @@ class Models:
     def x_pathlib_Path(self):
         return ClassVal(('ext', 'pathlib.Path'))
 
+    # ------------------------------------------------------------------ hashlib (A-sha)
+    def x_hashlib_sha256(self):
+        return Builtin('hashlib.sha256', lambda ex_, a, k: ShaObj(a[0]))
+
+    # ------------------------------------------------------------------ pyvc.prims (symbolic twins)
+    def x_pyvc_prims_sha256_hex(self):
+        return Builtin('prims.sha256_hex', lambda ex_, a, k: sha256_hex(ex_, a[0]))
+
+    def x_pyvc_prims_pyrepr(self):
+        return Builtin('prims.pyrepr', lambda ex_, a, k: P.py_repr(ex_, a[0]))
+
+    def x_pyvc_prims_implies(self):
+        def imp(ex_, a, k):
+            x, y = a
+            if isinstance(x, bool):
+                return y if x else True
+            return P.or_(ex_, P.not_(ex_, x), y)
+        return Builtin('prims.implies', imp)
+
+
+def sha256_hex(ex, text):
+    ex.run.assumed.add('A-sha')
+    t = P.str_t(ex, text)
+    f = P.ufn('sha256_hex', [z3.StringSort()], z3.StringSort())
+    ex.run.assume(z3.Length(f(t)) == 64)
+    return Sym(K.Str, f(t))
+
+
+class ShaObj(ExtObj):
+    def __init__(self, data):
+        self.data = data
+
+    def m_hexdigest(self, ex):
+        if not isinstance(self.data, Bytes):
+            raise OutOfSubset('sha256 of non-encoded text')
+        return sha256_hex(ex, self.data.s)
+
 
 class Bytes:
     """str.encode(): bytes are only ever hashed; keep the text."""
@@ -763,6 +800,22 @@ def isinstance_(ex, v, t):
         c = ex.run.cell(t)
         if isinstance(c, (HSet, HList)) and c.items is not None:
             return isinstance_(ex, v, tuple(c.items))
+    if isinstance(t, Sym) and t.kind == K.Cls:
+        # isinstance(value, <symbolic class>): decided for the classes the contracts distinguish
+        ex.run.assumed.add('A-isinstance-tag')
+        acc = z3.BoolVal(False)
+        for nm in ('builtins.str', 'builtins.int', 'builtins.float', 'builtins.bool', 'builtins.list', 'builtins.dict', 'pathlib.Path'):
+            r = isinstance_(ex, v, ClassVal(('ext', nm)))
+            rt = r.t if isinstance(r, Sym) else z3.BoolVal(bool(r))
+            acc = z3.If(t.t == z3.StringVal(nm.replace('builtins.', '')), rt, acc)
+        known = z3.Or(*[t.t == z3.StringVal(n) for n in ('str', 'int', 'float', 'bool', 'list', 'dict', 'pathlib.Path')])
+        vt = P.to_dyn(ex, v) if not (isinstance(v, Sym) and v.kind == K.Path) else K.dyn_sorts()[0].JPath(v.t)
+        other = P.ufn('isinstance_tag', [K.Dyn.sort(), z3.StringSort()], z3.BoolSort())(vt, t.t)
+        return Sym(K.Bool, z3.If(known, acc, other))
+    if isinstance(t, Sym) and isinstance(t.kind, K.Opt) and t.kind.inner == K.Cls:
+        if ex.run.decide(t.kind.is_none(t.t)):
+            raise RaiseEx(ExcVal('TypeError', origin='isinstance(x, None)'))
+        return isinstance_(ex, v, Sym(K.Cls, t.kind.val(t.t)))
     if not isinstance(t, ClassVal):
         if isinstance(t, str):
             return isinstance_name(ex, v, t)
